@@ -190,7 +190,7 @@ STATS = [
 
 def run(ctx: Ctx):
   st = {}
-  for r in (r1, r2, r3, r4, r5, r6, r7, r9, r10, r12, r14, r15, r16, r17, r18, r19, r20, r21):
+  for r in (r1, r2, r3, r4, r5, r6, r7, r9, r10, r12, r14, r15, r16, r17, r18, r19, r20, r21, r22, r23):
     ctx.guard(r, st)
   from mlmverif.props import c11
   from mlmverif.props._agg import model as aggmodel
@@ -1470,12 +1470,95 @@ def r12(ctx: Ctx, st):
   ctx.floor(rule, 1, n)
 
 
+def r22(ctx: Ctx, m=None):
+  rule = 'R-C07-22'
+  ctx.rule(rule, '"metric values equal their definitions": the cross-entropy signals take the logarithm of the probability ITSELF.'
+           ' In signals/cross_entropy.py the argument of every `np.log` — followed through the local assignments of the'
+           ' function — contains no value-altering guard (np.clip, np.maximum/minimum, np.where, np.nan_to_num, an added'
+           ' epsilon constant): flooring p at 1e-7 caps the loss of a confidently wrong prediction at 16.1 where the'
+           ' definition gives -log(p)')
+  mi = ctx.repo.module('signals.cross_entropy')
+  n = 0
+  guards = ('np.clip', 'np.maximum', 'np.minimum', 'np.where', 'np.nan_to_num', 'max', 'min', 'np.fmax', 'np.fmin')
+  for name, fi in mi.functions.items():
+    env = {}
+    for x in walk_no_nested(fi.node):
+      if isinstance(x, ast.Assign) and len(x.targets) == 1 and isinstance(x.targets[0], ast.Name):
+        env[x.targets[0].id] = x.value
+    for c in ast.walk(fi.node):
+      if not (isinstance(c, ast.Call) and unparse(c.func) in ('np.log', 'math.log', 'np.log2', 'np.log1p') and c.args):
+        continue
+      n += 1
+      seen, todo, bad = set(), [c.args[0]], None
+      while todo:
+        e = todo.pop()
+        for y in ast.walk(e):
+          if isinstance(y, ast.Call) and unparse(y.func) in guards:
+            bad = y
+          if isinstance(y, ast.BinOp) and isinstance(y.op, ast.Add) and any(
+              (isinstance(z, ast.Constant) and isinstance(z.value, float) and 0 < abs(z.value) < 1e-3)
+              or (isinstance(z, ast.Name) and z.id.upper() == z.id and 'EPS' in z.id.upper()) for z in (y.left, y.right)):
+            bad = y
+          if isinstance(y, ast.Name) and y.id in env and y.id not in seen:
+            seen.add(y.id)
+            todo.append(env[y.id])
+      what = f'{name}: `{unparse(c)[:50]}` takes the logarithm of the probability itself'
+      if bad is not None:
+        ctx.fail(rule, fi, what,
+                 f'the argument of `{unparse(c)[:40]}` passes through `{unparse(bad)[:50]}`: probabilities are floored / altered before'
+                 ' the logarithm, the loss of a true class with a tiny score is capped instead of being -log(p)', node=c)
+      else:
+        ctx.ok(rule, fi, what, c)
+  ctx.floor(rule, 3, n)
+
+
+def r23(ctx: Ctx, m=None):
+  rule = 'R-C07-23'
+  ctx.rule(rule, '"the accumulator API returns the same value as the one-shot function ... batches with NaNs": the mean of a'
+           ' dimension WITHOUT a valid value is NaN (documented; np.nanmean), not 0. The `_mean` a new Mean state is built with'
+           ' is not computed through `safe_divide` (which maps 0/0 to 0): an all-NaN column or an empty stream would'
+           ' otherwise report mean 0.0 in the accumulator, the merged shards and the one-shot path')
+  mi = ctx.repo.module('aggregates.rolling_stats')
+  n = 0
+  for ci in mi.classes.values():
+    fi = ci.methods.get('new')
+    if fi is None:
+      continue
+    env = {x.targets[0].id: x.value for x in walk_no_nested(fi.node)
+           if isinstance(x, ast.Assign) and len(x.targets) == 1 and isinstance(x.targets[0], ast.Name)}
+    for c in ast.walk(fi.node):
+      if not isinstance(c, ast.Call):
+        continue
+      for k in c.keywords:
+        if k.arg != '_mean':
+          continue
+        n += 1
+        v = k.value
+        if isinstance(v, ast.Name) and v.id in env:
+          v = env[v.id]
+        bad = [y for y in ast.walk(v) if isinstance(y, ast.Call) and unparse(y.func).endswith('safe_divide')]
+        what = f'{ci.name}.new: the mean of a dimension without valid values stays NaN'
+        if bad:
+          ctx.fail(rule, fi, what,
+                   f'`_mean={unparse(k.value)[:60]}` divides through safe_divide: 0 valid values give 0/0 -> 0.0 instead of NaN — an'
+                   ' all-NaN column reports a mean of 0', node=c)
+        else:
+          ctx.ok(rule, fi, what, c)
+  ctx.floor(rule, 1, n)
+
+
 from mlmverif.selfcheck import B, OK  # noqa: E402
 
 _C = 'aggregates/classification.py'
 _T = 'aggregates/retrieval.py'
 _MC = 'metrics/classification.py'
 VARIANTS = [
+    B('categorical-cross-entropy-clips-its-probabilities', 'signals/cross_entropy.py',
+      "  return -np.sum(y_true * np.log(y_pred / np.sum(y_pred)))", "  y_prob = np.clip(y_pred / np.sum(y_pred), 1e-7, 1.0)\n  return -np.sum(y_true * np.log(y_prob))", 'R-C07-22'),
+    OK('categorical-cross-entropy-through-a-local', 'signals/cross_entropy.py',
+       "  return -np.sum(y_true * np.log(y_pred / np.sum(y_pred)))", "  y_prob = y_pred / np.sum(y_pred)\n  return -np.sum(y_true * np.log(y_prob))"),
+    B('mean-of-nothing-is-zero', 'aggregates/rolling_stats.py',
+      "        _mean=np.nanmean(batch, axis=0),", "        _mean=math_utils.safe_divide(np.nansum(batch, axis=0), np.sum(~np.isnan(batch), axis=0)),", 'R-C07-23', count=2),
     B('flip-mask-threshold-tested-by-truth', 'signals/flip_masks.py',
       '  if threshold is not None:\n    base_prediction = base_prediction > threshold', '  if threshold:\n    base_prediction = base_prediction > threshold', 'R-C07-20'),
     B('topk-k-list-falls-back-instead-of-appending', 'aggregates/retrieval.py',
